@@ -201,7 +201,13 @@ class EinsumDistributiveLawMapper(
 
         hlo = index_lambda_to_high_level_op(expr)
 
-        if _can_hlo_be_distributed(hlo):
+        if (_can_hlo_be_distributed(hlo)
+                # An einsum pushed through an operation that changes the dtype
+                # would be carried out in the narrower operand type
+                # (int32 instead of float64 for 1.5 * int32_array).
+                and all(x.dtype == expr.dtype
+                        for x in (hlo.x1, hlo.x2)  # type: ignore[attr-defined]
+                        if isinstance(x, Array))):
             assert isinstance(hlo, BinaryOp)
             # /!\ Warning: Loses metadata.
             rec_x1 = (
